@@ -43,7 +43,7 @@ class C07(Check):
     ASSUMPTIONS = ['timestamps are non-decreasing per key; timeouts are >= 0 (a zero timeout makes every item open a new window, as the statement says)',
                    'closing_mapper returns a bool']
     ANCHORS = ['rxsci/data/time_split.py', 'rxsci/operators/multiplex.py']
-    REQUIRED_TAGS = ['consumer-runs-a-pipeline-built-with-the-same-operator-object', 'top', 'group', 'active', 'inactive', 'no-timeout', 'closing', 'include', 'exclude', 'datetime', 'equal-timestamps', 'gap=timeout', 'day-scale', 'zero-timeout', 'aware-datetimes-mixed-offsets', 'no-timestamps-closing-mapper-only', 'closing-mapper-says-no-with-None-or-empty-string'] + ['operator-object-used-in-two-pipelines'] + ['history-fed-more-than-the-judged-stream'] + PRELUDE_TAGS + ['prelude:overlap']
+    REQUIRED_TAGS = ['consumer-runs-a-pipeline-built-with-the-same-operator-object', 'top', 'group', 'active', 'inactive', 'no-timeout', 'closing', 'include', 'exclude', 'datetime', 'equal-timestamps', 'gap=timeout', 'day-scale', 'zero-timeout', 'aware-datetimes-mixed-offsets', 'no-timestamps-closing-mapper-only', 'closing-mapper-says-no-with-None-or-empty-string', 'include-flag-given-as-a-non-bool'] + ['operator-object-used-in-two-pipelines'] + ['history-fed-more-than-the-judged-stream'] + PRELUDE_TAGS + ['prelude:overlap']
     REQUIRED_OBSERVED = ['child_lifetimes_checked', 'parent_lifetimes_checked', 'empty_windows_dropped']
 
     def generate(self, rng, tier, shard, nshards):
@@ -94,6 +94,8 @@ class C07(Check):
                    'include': rng.random() < 0.5, 'time': rng.choice(['id', 'dt', 'dtz'])}
             if cfg['active'] is None and cfg['inactive'] is None and cfg['closing'] and j % 2:
                 cfg['time'] = 'tnone'
+            if cfg['closing'] and rng.random() < 0.15:
+                cfg['include_as'] = rng.choice(['numpy', 'int'])
             yield {'cfg': cfg, 'parent': name, 'parent_node': windows.PARENTS[name](rng), 'items': items}
 
     def evaluate(self, case):
@@ -112,6 +114,8 @@ class C07(Check):
             out.tags += ['closing', 'include' if cfg['include'] else 'exclude']
         if cfg['closing'] and cfg['closing'].startswith(('modeqnone', 'modeqstr')):
             out.tags.append('closing-mapper-says-no-with-None-or-empty-string')
+        if cfg.get('include_as') and cfg.get('closing'):
+            out.tags.append('include-flag-given-as-a-non-bool')
         if cfg.get('time') == 'tnone':
             out.tags.append('no-timestamps-closing-mapper-only')
         if cfg.get('time') == 'dtz':
@@ -145,6 +149,22 @@ class C07(Check):
             out.observed['empty_windows_dropped'] += sum(1 for c in p.children if not c.items)
             if len(exp) >= 2:
                 out.nontrivial = True
+            if cfg.get('include_as') and cfg.get('closing'):
+                # the flag is a truthy / falsy value that is not the object True / False: which of the two placements of the closing
+                # item it selects is not stated (the unchanged tree reads `is True`); that every item goes to exactly one window,
+                # in order, cut as ONE of the two placements prescribes, is
+                trials = []
+                for inc in (True, False):
+                    t = Outcome()
+                    windows.check_partition(t, ob, p, expected_sessions(p.xs, dict(cfg, include=inc)), 'time_split', allow_empty_children=True)
+                    trials.append(t)
+                out.observed['flag_given_as_non_bool:partitions_judged'] += 1
+                if all(t.failures for t in trials):
+                    f = trials[0].failures[0]
+                    return out.fail(f['kind'] + ':under-either-placement-of-the-closing-item', cfg=cfg, **{k_: v_ for k_, v_ in f['detail'].items() if k_ != 'cfg'})
+                for k_, v_ in trials[0 if not trials[0].failures else 1].observed.items():
+                    out.observed[k_] += v_
+                continue
             if windows.check_partition(out, ob, p, exp, 'time_split', allow_empty_children=True):
                 out.failures[-1]['detail']['cfg'] = cfg
                 return out
